@@ -176,7 +176,10 @@ class Check(PropertyCheck):
     def oracle_complete(self, boxes):
         fails = []
         texts = [gen.place(b[0], b[5], b[6]) for b in boxes]
-        res = common.run_impl("lib", ["%d settings b=0,s=0,d=0 %s" % (i, hx(t)) for i, t in enumerate(texts)])
+        # every third box is drawn into a buffer that was rendered before, filled cell by cell, overwritten with placeholder
+        # letters and written back between renderings (harness entry "mutate"): the rectangle has to come out all the same
+        ent = lambda i, t: "mutate" if (i % 3 == 1 and '"' not in t and "# Legend:" not in t) else "settings"
+        res = common.run_impl("lib", ["%d %s b=0,s=0,d=0 %s" % (i, ent(i, t), hx(t)) for i, t in enumerate(texts)])
         for i, (art, w, h, rounded, dashed, k, n, has_text, known) in enumerate(boxes):
             self.evaluations += 1
             t = texts[i]
@@ -290,7 +293,8 @@ class Check(PropertyCheck):
 
     def oracle_sound(self, grids):
         fails = []
-        res = common.run_impl("lib", ["%d settings b=0,s=0,d=0 %s" % (i, hx(t)) for i, t in enumerate(grids)])
+        ent = lambda i, t: "mutate" if (i % 3 == 1 and '"' not in t and "# Legend:" not in t) else "settings"
+        res = common.run_impl("lib", ["%d %s b=0,s=0,d=0 %s" % (i, ent(i, t), hx(t)) for i, t in enumerate(grids)])
         border_h = set("-~+.,'`_─┌┐└┘╭╮╰╯")
         border_v = set("|:!+.,'`│┌┐└┘╭╮╰╯")
         for i, t in enumerate(grids):
